@@ -313,8 +313,15 @@ func literalFieldsComplete(c *core.Ctx) {
 				sites++
 				idx[named.Obj().Name()]++
 				var missing []string
+				stNow := named.Underlying().(*types.Struct)
+				exists := map[string]bool{}
+				for i := 0; i < stNow.NumFields(); i++ {
+					exists[stNow.Field(i).Name()] = true
+				}
 				for _, w := range want {
-					if !have[w] {
+					// a field the struct no longer has cannot be left out (what used it is checked by the rules
+					// of that mechanism)
+					if !have[w] && exists[w] {
 						missing = append(missing, w)
 					}
 				}
